@@ -59,3 +59,11 @@ package gi
 //@ func gi.appendSnapshotConstants
 //@   property C19
 //@   on-call ppValue the-value-of-the-constant-is-written-as-data: $arg0_from == "Value"
+
+// C19: snapshot writes, after the defflavor form of every flavor, the methods defined on that flavor itself:
+// every method name is asked for each of its four kinds (primary, before, after, whopper), inherited methods
+// excluded (they are written with the flavor that defines them); none of the three loops is left early.
+//@ func gi.appendSnapshotFlavors
+//@   property C19
+//@   on-call DefMethodList own-methods-of-this-flavor: !$arg2 && $arg1 == daemon
+//@   full-loop rangeindex
